@@ -1,6 +1,6 @@
 """C07 cost accounting adds up"""
 from .. import oracles as O
-from ..propkit import Kit
+from ..propkit import Kit, cutoff_ops
 
 
 def _oracle(S, b, trace):
@@ -10,9 +10,13 @@ def _oracle(S, b, trace):
         if rec["op"]["op"] != "simulate":
             continue
         if rec.get("dump") and rec["exc"] is None:
-            out += O.c07(S, rec["dump"]) + O.c07_absence(S, rec)
+            # the per-step sums are judged on whatever the logs hold (a second call may keep the logs of a
+            # cut-off run); absence steps index the logs only in a run that starts from cleared logs at time 0
+            out += O.c07(S, rec["dump"])
+            if rec["op"].get("init_state", True) and rec["op"].get("init_log", True):
+                out += O.c07_absence(S, rec)
     return out
 
 
-K = Kit("C07", _oracle)
+K = Kit("C07", _oracle, make_ops=cutoff_ops)
 eval_case, run, replay = K.eval_case, K.run, K.replay
